@@ -515,6 +515,12 @@ func (e *Env) evalCall(x *SExpr) Value {
 	case "itoa":
 		need(1)
 		return Value{T: tString, L: []*Term{UF("itoa", SInt, e.intTerm(x.Args[0]))}}
+	case "captured": // captured(f, "name"): value of free variable name captured by closure value f
+		need(2)
+		return specInt(UF("closure.fv."+x.Args[1].Str, SInt, identOf(arg(0))))
+	case "closurefn": // identity of the function a closure value was made from
+		need(1)
+		return specInt(UF("closure.fn", SInt, identOf(arg(0))))
 	case "bufarr":
 		need(1)
 		return specInt(bufArr(identOf(arg(0))))
@@ -581,7 +587,7 @@ func (e *Env) evalCall(x *SExpr) Value {
 		need(2)
 		m := arg(0)
 		k := arg(1)
-		return specBool(Select(Select(e.cur.heapArrS("mapdom:"+typeKey(m.T), SArr2B), m.L[0]), k.L[0]))
+		return specBool(And(Ne(m.L[0], Int(0)), Select(Select(e.cur.heapArrS("mapdom:"+typeKey(m.T), SArr2B), m.L[0]), k.L[0])))
 	case "ctxval": // ctxval(ctx, key) -> interface value; key: interface value or a ctxKey number
 		need(2)
 		c := arg(0)
